@@ -1,14 +1,16 @@
 #!/bin/sh
-# runmutant.sh <patch> <ID> [<ID>...]: apply patch to /repo, run baseline tests + quick checks, revert.
+# runmutant.sh <patch> <ID> [<ID>...]: apply patch to the repo, run baseline tests + quick checks, revert.
+# REPO / VERIF default to /repo and /verif; tools/detect_all.sh sets them to scratch clones when run under iso.sh.
+REPO="${REPO:-/repo}"; VERIF="${VERIF:-/verif}"
 patch="$(readlink -f "$1")"; shift
-git -C /repo diff --quiet || { echo "/repo not clean"; exit 2; }
-rm -rf /tmp/evidence.bak && cp -r /verif/evidence /tmp/evidence.bak
-trap 'git -C /repo checkout -- . ; rm -rf /verif/evidence; mv /tmp/evidence.bak /verif/evidence' EXIT INT TERM
-git -C /repo apply "$patch" || { echo "patch does not apply"; exit 2; }
+git -C "$REPO" diff --quiet || { echo "$REPO not clean"; exit 2; }
+bak="$(mktemp -d /tmp/evidence.bak.XXXXXX)"; cp -r "$VERIF/evidence" "$bak/evidence"
+trap 'git -C "$REPO" checkout -- . ; rm -rf "$VERIF/evidence"; mv "$bak/evidence" "$VERIF/evidence"; rm -rf "$bak"' EXIT INT TERM
+git -C "$REPO" apply "$patch" || { echo "patch does not apply"; exit 2; }
 if [ -z "$SKIP_TESTS" ]; then
-  (cd /repo && cargo test --offline 2>&1 | grep -E "^test result" | head -1)
+  (cd "$REPO" && cargo test --offline 2>&1 | grep -E "^test result" | head -1)
 fi
 for id in "$@"; do
-  out=$(cd /verif && VERIF_DIR=/verif ./check "$id" ${TIER:-quick} 2>&1); code=$?
+  out=$(cd "$VERIF" && VERIF_DIR="$VERIF" ./check "$id" ${TIER:-quick} 2>&1); code=$?
   echo "[$id] exit=$code $(echo "$out" | grep -E 'violation detail|INCONCLUSIVE|^OK' | head -1 | cut -c1-300)"
 done
